@@ -62,7 +62,7 @@ def mvD (f : Files) (old new : Nat) : Dir :=
   | some c => ⟨(f.set new (some c)).set old none⟩
 
 @[simp] theorem mvD_get (f : Files) (old new : Nat) : (mvD f old new).get = mv f old new := by
-  unfold mvD mv; split <;> rfl
+  unfold mvD mv; cases f old <;> rfl
 
 /-- the loop `for i := maxBackups; i > 0; i-- { if err := os.Rename(path-(i-1), path-i); err != nil && !IsNotExist { return } }`:
     directory, tick and the failing call (if any) -/
